@@ -1052,6 +1052,8 @@ class XsdElement(XsdComponent, ParticleMixin,
                 elem.text = self.fixed
             elif self.default is not None and context.use_defaults:
                 elem.text = self.default
+            elif self.default is None and not xsd_type.is_valid(''):
+                errors.append("a value is required: the empty content is not valid for the type.")
 
         elif isinstance(xsd_type.content, XsdSimpleType):
             if xsd_type.content.max_length == 0:
@@ -1068,6 +1070,8 @@ class XsdElement(XsdComponent, ParticleMixin,
                 elem.text = self.fixed
             elif self.default is not None and context.use_defaults:
                 elem.text = self.default
+            elif self.default is None and not xsd_type.content.is_valid(''):
+                errors.append("a value is required: the empty content is not valid for the type.")
 
         else:
             context.level += 1
